@@ -9,13 +9,13 @@ import (
 
 // ForwardMessage is a decoded Fluentd Forward protocol message (Forward, PackedForward or CompressedPackedForward).
 type ForwardMessage struct {
-	Tag        string
-	Mode       string   // Forward | PackedForward | CompressedPackedForward
-	RawEntries [][]byte // the bytes of each [time, record] entry
-	Events     []*ForwardEvent
-	OptSize    int64
-	OptChunk   string
-	OptCompressed string
+	Tag               string
+	Mode              string   // Forward | PackedForward | CompressedPackedForward
+	RawEntries        [][]byte // the bytes of each [time, record] entry
+	Events            []*ForwardEvent
+	OptSize           int64
+	OptChunk          string
+	OptCompressed     string
 	HasSize, HasChunk bool
 }
 
